@@ -48,7 +48,7 @@
 (*   - the internal order of the pending forced changes,                   *)
 (*   - the set id of a block number when lastOf is not increasing.         *)
 (***************************************************************************)
-EXTENDS ChangeForest, TLC, Json
+EXTENDS ChangeForest, DigestLayerOps, TLC, Json
 
 CONSTANTS MaxBlocks,   \* bound on the number of imported blocks
           MaxAnn,      \* bound on the number of announcements in the tree
@@ -178,10 +178,18 @@ Apply(s, o) == IF o.op = "Import"
 
 Init == st = InitState /\ hist = <<>> /\ done = FALSE
 
+(* the header-digest dress of an Import (DigestLayerOps): drawn per step; the argument of RandomElement *)
+(* mentions a variable so that TLC does not cache the draw                                               *)
+LayoutOf(o) == IF o.op # "Import" THEN [name |-> "-", items |-> <<>>, babe |-> 0]
+               ELSE LET l == RandomElement({x \in DlLayouts(o.a.k) : Len(hist) >= 0})
+                        items == DlLayout(o.a, l)
+                    IN [name |-> l, items |-> items, babe |-> DlBabeCalls(items)]
+
 Step(o) == /\ ~done /\ Len(hist) < Depth
            /\ LET r == Apply(st, o)
               IN /\ st' = r.s
-                 /\ hist' = IF Record THEN Append(hist, [o |-> o, res |-> r.res, cls |-> r.cls, obs |-> Obs(r.s)])
+                 /\ hist' = IF Record THEN Append(hist, [o |-> o, res |-> r.res, cls |-> r.cls, obs |-> Obs(r.s),
+                                                         lay |-> LayoutOf(o)])
                             ELSE Append(hist, 0)
            /\ UNCHANGED done
 
@@ -252,6 +260,9 @@ PendingNotOverdue == \A r \in CFRoots(st.par, st.pstd) : CFAncEq(st.par, r, st.f
 
 (* at most one root of the fork tree can be applied by a finalisation, at most one forced change by an import *)
 UniqueApplicable == \A b \in LiveBlocks(st) : Cardinality(Applicable(st, b)) <= 1
+
+(* the digest layer reduces every layout of an announcement to that announcement (state independent) *)
+DigestLayerLaw == \A a \in Anns : DlLayoutLaw(a)
 
 (* set id of a block number is monotone and ends at the current set *)
 SetIdAtMonotone == WellFormed(st) =>
